@@ -10,6 +10,7 @@ EXPLANATION = (
     "On the pinned tree no arm has one: connection ids are slab keys that are reused immediately, so a late event of an ended link acts on the connection that now owns the key — recorded as known finding F10 per arm. "
     "(R-C14-cache) the router-wide spare packet buffer is emptied (unbounded drain / clear) on every path between Incoming::exchange and its store back into Router.cache, so no packet of one connection is processed under another's id. "
     "(R-C14-select) the four remove-by-key predicates of the router (parked requests by connection id x2, tracker requests by filter, group members by client id) compare with the polarity that acts on the given key only. "
+    "(R-C14-purge) on disconnect every parked request of the connection id is removed from every filter's waiters (shared with R-C03-clean), so a recycled id inherits nothing. "
     "Shared premises checked under C03: R-C03-handle, R-C03-align. NOT decided: exactness of a well-behaved client's stream under others' misbehaviour.")
 ASSUMPTIONS = ["rustc MIR construction is correct"]
 TECHNIQUE = "static analysis: provenance of connection ids at every per-connection access, handler-table extraction of Router::events with a required dominating identity check"
@@ -25,6 +26,17 @@ def run(ctx):
     ctx.guarded("R-C14-stale", stale, ctx, prog)
     ctx.guarded("R-C14-cache", recycled_buffer, ctx, prog)
     ctx.guarded("R-C14-select", select_by_key, ctx, prog)
+    ctx.guarded("R-C14-purge", purge, ctx, prog)
+
+
+def purge(ctx, prog):
+    """a departed connection leaves nothing behind that a later owner of its (recycled) id would inherit: every
+    parked request of the id is removed on disconnect — shared with R-C03-clean"""
+    from . import c03
+    from .common import Relabel
+    view = Relabel(ctx, "R-C14-purge", lambda fn, inst: True)
+    c03.clean(view, prog)
+    ctx.floor("R-C14-purge", "verdicts about the disconnect purge", view.kept, 1)
 
 
 def recycled_buffer(ctx, prog):
@@ -198,19 +210,24 @@ def select_by_key(ctx, prog):
                     cb = prog.A.get(getattr(s_, "adt", None)) if s_.kind == "agg" else None
                     if cb is None or cb.kind != "Closure":
                         continue
-                    pol = None
+                    pols = []
                     for blk in cb.blocks:
                         for st in blk["s"]:
                             if "lhs" in st and st["rv"]["k"] == "bin" and st["rv"]["op"] in ("Eq", "Ne"):
-                                pol = _item_vs_capture(cb, st["rv"]["a"], st["rv"]["b"], st["rv"]["op"].lower(), pol)
+                                p_ = _item_vs_capture(cb, st["rv"]["a"], st["rv"]["b"], st["rv"]["op"].lower(), None)
+                                if p_:
+                                    pols.append(p_)
                     for cbb, ct in cb.calls():
                         m = re.search(r"PartialEq.*::(eq|ne)$", callee_path(ct))
                         if m and len(ct["args"]) == 2:
-                            pol = _item_vs_capture(cb, ct["args"][0], ct["args"][1], m.group(1), pol)
-                    if pol is None:
+                            p_ = _item_vs_capture(cb, ct["args"][0], ct["args"][1], m.group(1), None)
+                            if p_:
+                                pols.append(p_)
+                    if not pols:
                         continue
-                    # a negated result (`!(a == b)`) flips the polarity
+                    # every key comparison of the predicate (a conjunction for composite keys) has the wanted polarity
                     found += 1
+                    pol = want if all(p_ == want for p_ in pols) else [p_ for p_ in pols if p_ != want][0]
                     if pol == want:
                         ctx.ok(rule, cb.id, "%s predicate compares item %s key: %s" % (callee_path(t).rsplit("::", 1)[-1], "==" if want == "eq" else "!=", meaning), site=cb.fn_loc())
                     else:
